@@ -437,8 +437,11 @@ class W1World(World):
             else:
                 self.extra += 1
                 new = 'G-%s-x%d' % (s['actor'], self.extra)
-                if rng.random() < 0.2:
+                r = rng.random()
+                if r < 0.2:
                     new = rng.choice(self.client_graphs[client])
+                elif r < 0.45:
+                    new = g + '-copy'        # an id that contains the source's id (as '<id>-clone' names do)
                 if new == g:
                     new = 'G-%s-x%d' % (s['actor'], self.extra)
                 if new not in self.client_graphs[client]:
